@@ -8,7 +8,7 @@ from ..cfg import CFG, const_env_step, eval3, UNK, OTHER
 from ..domains import linform, Lin
 from ..consteval import fold
 from ..util import explore, mk_atoms, eval_local, reach_conds, interval_of_name_at, reach_expr, pred_is, node_calls, own_expr, last_name, calls_named, assigned_names, returned_names, is_call_to, enclosing_loops, loop_targets
-from .slots import LOADER, BASEDEMUX, FQITER, FQHANDLE, HANDLELIM, P
+from .slots import LOADER, BASEDEMUX, FQITER, FQHANDLE, HANDLELIM, DEMUXMODS, P
 
 DEMUX = P + 'modularDemultiplexer/demux.py'
 LOADER_FN = 'DemultiplexingStrategyLoader.demultiplex'
@@ -184,7 +184,16 @@ def r1(ctx):
         for p, (env, ev) in paths:
             term = cfg.nodes[p[-1][0]].info
             if term == 'raise':
-                continue          # an uncaught exception aborts the run loudly: nothing is silently lost
+                # an uncaught exception aborts the run loudly.  That is acceptable for a failing rejects write (nothing is left to try), not for
+                # a failure of the strategy or of serialising the accepted record: such a pair has to end in the rejects (with the handles
+                # given), otherwise it and every pair after it is neither demultiplexed nor rejected
+                excs = [cfg.nodes[nid] for nid, lab in p if lab.startswith('exc:')]
+                origin = excs[-1] if excs else None          # the exception that actually escapes (an earlier one was caught)
+                if origin is not None and tf and rj and not pr and ev.count('reject-write') == 0:
+                    oc = [src(c.func) for c in node_calls(origin)]
+                    if any(d == 'targetFile.write' or (d.endswith('.demultiplex') and d.split('.')[0] == strat) for d in oc):
+                        results.append(((tf, rj, pr), [f'an exception raised by `{[d for d in oc if d == "targetFile.write" or d.endswith(".demultiplex")][0]}` leaves the loop: the pair is neither written nor rejected and the run stops'], cfg.fmt_path(p)))
+                continue
             acc_w, rej_w, cnt, dm = ev.count('accept-write'), ev.count('reject-write'), ev.count('count'), ev.count('demux-ok')
             accepted = dm >= 1 and (not tf or acc_w == 1)
             problems = []
@@ -584,3 +593,106 @@ def r8(ctx):
             ctx.counters[k] |= v
         else:
             ctx.counters[k] += v
+
+
+@rule('C01', 'C01-R9', 'one-file-per-cell output keeps mates together: the tags the per-cell writer builds the file name from are given to every '
+                       'mate of a pair - a strategy stores such a tag through the variable of a loop over the records inside that loop, or for every mate index')
+def r9(ctx):
+    w = ctx.fn(FQHANDLE, 'FastqHandle.write')
+    # the routing tags: what the per-cell branch reads from record.tags to build the path
+    routing = set()
+    for c in walk_no_nested(w):
+        if isinstance(c, ast.Call) and isinstance(c.func, ast.Attribute) and c.func.attr == 'get' and isinstance(c.func.value, ast.Attribute) and c.func.value.attr == 'tags' \
+                and c.args and isinstance(c.args[0], ast.Constant):
+            routing.add(c.args[0].value)
+        if isinstance(c, ast.Subscript) and isinstance(c.value, ast.Attribute) and c.value.attr == 'tags' and isinstance(c.slice, ast.Constant):
+            routing.add(c.slice.value)
+    ctx.need('C01-R9', len(routing), 2, 'tags the per-cell writer names the file after')
+    files = [BASEDEMUX] + [p for p in ctx.ix.pyfiles() if p.startswith(DEMUXMODS)]
+    nsites = 0
+    bad = []
+    for rel in files:
+        mod = ctx.ix.module(rel)
+        for q, defs in mod.defs.items():
+            for f in defs:
+                if not isinstance(f, (ast.FunctionDef, ast.AsyncFunctionDef)):
+                    continue
+                loops = [l for l in walk_no_nested(f) if isinstance(l, ast.For)]
+                sites = []      # (receiver expr, tag, node)
+                for n in walk_no_nested(f):
+                    if isinstance(n, ast.Assign):
+                        for t in n.targets:
+                            if isinstance(t, ast.Subscript) and isinstance(t.value, ast.Attribute) and t.value.attr == 'tags' and isinstance(t.slice, ast.Constant) and t.slice.value in routing:
+                                sites.append((t.value.value, t.slice.value, n))
+                    if isinstance(n, ast.Call) and isinstance(n.func, ast.Attribute) and n.func.attr == 'addTagByTag' and n.args and isinstance(n.args[0], ast.Constant) and n.args[0].value in routing:
+                        sites.append((n.func.value, n.args[0].value, n))
+                by_index = {}
+                for recv, tag, node in sites:
+                    if isinstance(recv, ast.Name) and recv.id == 'self':
+                        continue
+                    nsites += 1
+                    if isinstance(recv, ast.Name):
+                        own = [l for l in loops if any(isinstance(x, ast.Name) and x.id == recv.id for x in ast.walk(l.target))]
+                        if own and not any(any(y is node for y in ast.walk(b)) for l in own for b in l.body):
+                            bad.append((rel, node, f'{q}: `{src(node)[:60]}` stores the routing tag {tag!r} through the loop variable `{recv.id}` after its loop: only the last mate receives it, '
+                                                   f'the mates of one pair are routed to different per-cell files'))
+                    elif isinstance(recv, ast.Subscript) and isinstance(recv.slice, ast.Constant) and isinstance(recv.slice.value, int):
+                        by_index.setdefault((src(recv.value), tag), {})[recv.slice.value] = node
+                for (base, tag), idx in by_index.items():
+                    # every mate index the function addresses on that record list must receive the tag
+                    used = {s_.slice.value for s_ in walk_no_nested(f) if isinstance(s_, ast.Subscript) and src(s_.value) == base and isinstance(s_.slice, ast.Constant) and isinstance(s_.slice.value, int)
+                            and s_.slice.value >= 0}
+                    missing = sorted(used - set(idx))
+                    if missing:
+                        node = list(idx.values())[0]
+                        bad.append((rel, node, f'{q}: routing tag {tag!r} is stored on {base}[{sorted(idx)[0]}] but not on mate index {missing}: the mates of one pair are routed to different per-cell files'))
+    ctx.need('C01-R9', nsites, 3, 'stores of a routing tag onto a record in the strategy modules')
+    if bad:
+        for rel, node, msg in bad:
+            ctx.emit('C01-R9', False, rel, node, msg, key='routing-tags-on-all-mates', what=msg)
+    else:
+        ctx.emit('C01-R9', True, BASEDEMUX, ctx.fn(FQHANDLE, 'FastqHandle.write'), f'{nsites} stores of the routing tags {sorted(routing)} all reach every mate (loop over the records / every index)', key='routing-tags-on-all-mates')
+
+
+@rule('C01', 'C01-R10', 'a read the rejects writer cannot tag falls back to the raw record: the loader catches NonMultiplexable around the rejects tagger, '
+                        'so every exception the record construction (fromRawFastq and the header parsers it calls) raises explicitly is a NonMultiplexable or a re-raise')
+def r10(ctx):
+    f, outer, inner = loader_loops(ctx)
+    # the fallback exists: a try around the rejects tagger inside the NonMultiplexable arm, catching NonMultiplexable, whose handler writes to the rejects
+    arms = [h for t in walk_no_nested(inner) if isinstance(t, ast.Try) for h in t.handlers if h.type is not None and last_name(dotted(h.type) or '') == 'NonMultiplexable']
+    inner_try = [t for h in arms for t in walk_no_nested(h) if isinstance(t, ast.Try) and any(isinstance(c, ast.Call) and (dotted(c.func) or '').endswith('.demultiplex') for b in t.body for c in ast.walk(b))]
+    fb = [h for t in inner_try for h in t.handlers if h.type is not None and last_name(dotted(h.type) or '') in ('NonMultiplexable', 'Exception', 'BaseException')
+          and any(isinstance(c, ast.Call) and src(c.func) == 'rejectHandle.write' for c in ast.walk(h))]
+    ctx.emit('C01-R10', bool(fb), LOADER, inner_try[0] if inner_try else inner, 'the rejects arm falls back to writing the raw record when the rejects tagger raises ' +
+             (f'{sorted({last_name(dotted(h.type)) for h in fb})}' if fb else '- fallback not found'), key='rejects-fallback', undecided=not fb)
+    caught_all = any(last_name(dotted(h.type) or '') in ('Exception', 'BaseException') for h in fb)
+    # the closure of the record construction inside the class
+    cls = 'TaggedRecord'
+    mod = ctx.ix.module(BASEDEMUX)
+    seen, todo = set(), ['fromRawFastq']
+    raises = []
+    while todo:
+        m = todo.pop()
+        if m in seen:
+            continue
+        seen.add(m)
+        for g in mod.defs.get(f'{cls}.{m}', []):
+            for n in walk_no_nested(g):
+                if isinstance(n, ast.Call) and isinstance(n.func, ast.Attribute) and isinstance(n.func.value, ast.Name) and n.func.value.id == 'self' and f'{cls}.{n.func.attr}' in mod.defs:
+                    todo.append(n.func.attr)
+                if isinstance(n, ast.Raise) and n.exc is not None:
+                    e = n.exc.func if isinstance(n.exc, ast.Call) else n.exc
+                    raises.append((g, n, last_name(dotted(e) or '?')))
+    ctx.need('C01-R10', len(seen), 3, 'methods in the record-construction closure of TaggedRecord.fromRawFastq')
+    bad = [(g, n, t) for g, n, t in raises if not caught_all and not ctx.ix.is_subclass_name(t, 'NonMultiplexable')]
+    if bad:
+        for g, n, t in bad:
+            ctx.emit('C01-R10', False, BASEDEMUX, n, f'{cls}.{g.name} raises {t}: the rejects arm of the loader only falls back on NonMultiplexable, so a rejected read whose header cannot be parsed '
+                     f'aborts the run instead of being written to the rejects', key='construction-raises-nonmultiplexable', what=f'{cls}.{g.name}: raise {t} escapes the rejects fallback')
+    else:
+        ctx.emit('C01-R10', True, BASEDEMUX, mod.defs[f'{cls}.fromRawFastq'][0], f'{len(raises)} explicit raise(s) in {sorted(seen)}: all NonMultiplexable (bare re-raises keep the active exception)',
+                 key='construction-raises-nonmultiplexable')
+
+
+from . import shared as _shared
+_shared.register('C01', 'C01')
